@@ -309,6 +309,9 @@ def write_evidence(pid: str, tier: str, seed: int, coverage: dict, wall: float,
         "violations": violations,
     }
     d = VERIF / "evidence"
+    if str(REPO) != "/repo":
+        # a run against a scratch copy (mutation experiment) is not evidence about /repo
+        d = Path(tempfile.gettempdir()) / "verif_evidence_scratch"
     d.mkdir(exist_ok=True)
     (d / f"{pid}.json").write_text(json.dumps(ev, indent=1, default=str))
 
